@@ -134,26 +134,32 @@ def wantsReset (c : Cfg) : Option Nat :=
   | some (l + 1) => some (l + 1)
   | _ => none
 
+/-- the part of the loop body before the probe: optional ECUReset (which forces a recovery), then
+    `_recover_stack` when `recover_stack` is set.  Result: state and "stack recovered / still valid". -/
+def prepare (c : Cfg) (E : Ecu) (stack : List Sess) (acc : St × Bool) : St × Bool :=
+  let a1 : St × Bool := match wantsReset c with
+    | some l => (doReset c E (top stack) l acc.1, true)
+    | none => acc
+  if a1.2 = true then recoverStack c E (top stack) stack a1.1 else (a1.1, true)
+
+/-- what the loop body does with the answer to the probe `10 s`; the `Bool` is the new `recover_stack` -/
+def classify (c : Cfg) (stack : List Sess) (s : Sess) (r : St × Ans) : St × Bool :=
+  match r.2 with
+  | .silent => (r.1, false)                       -- TimeoutError: `continue`
+  | .nrc code =>
+    if code = NRC_SFNS then (r.1, false)          -- not available: `continue`
+    else ({ r.1 with neg := r.1.neg ++ [(s, stack, code)] }, false)
+  | .pos =>
+    let st := if c.thorough = true ∨ s ∉ stack then { r.1 with found := r.1.found ++ [stack ++ [s]] } else r.1
+    ({ st with pos := st.pos ++ [(s, stack)] }, true)
+
 /-- body of `for session in sessions` for one session; the `Bool` is `recover_stack` -/
 def probeOne (c : Cfg) (E : Ecu) (stack : List Sess) (acc : St × Bool) (s : Sess) : St × Bool :=
   if acc.1.aborted = true then acc else
   if s ∈ c.skip then acc else
-  let tp := top stack
-  let a1 : St × Bool := match wantsReset c with
-    | some l => (doReset c E tp l acc.1, true)
-    | none => acc
-  let a2 : St × Bool := if a1.2 = true then recoverStack c E tp stack a1.1 else (a1.1, true)
-  if a2.2 = false then ({ a2.1 with aborted := true }, false) else
-  let r := dsc c E .probe tp s a2.1
-  let st := r.1
-  match r.2 with
-  | .silent => (st, false)
-  | .nrc code =>
-    if code = NRC_SFNS then (st, false)
-    else ({ st with neg := st.neg ++ [(s, stack, code)] }, false)
-  | .pos =>
-    let st := if c.thorough = true ∨ s ∉ stack then { st with found := st.found ++ [stack ++ [s]] } else st
-    ({ st with pos := st.pos ++ [(s, stack)] }, true)
+  let a2 := prepare c E stack acc
+  if a2.2 = false then ({ a2.1 with aborted := true }, false) else   -- sys.exit(1)
+  classify c stack s (dsc c E .probe (top stack) s a2.1)
 
 /-- body of `for stack in found[current_depth - 1]` -/
 def processStack (c : Cfg) (E : Ecu) (st : St) (stack : List Sess) : St :=
